@@ -29,6 +29,7 @@ DEFAULTS = {
     'templates': 'dense',      # 'dense' | 'sparse'
     'id_dtype': 'int32', 'time_dtype': 'uint64',
     'alf_samples': True,
+    'raw_dir': '',             # sub-directory (relative, named in params.py) holding the flat raw files
     'raw_nonfinite': False,    # float raw data with inf / NaN / -inf at three samples
     'alf_clock': 'rate',       # 'rate': seconds = samples / rate | 'sync': seconds on another clock
     'attrs': 'none',           # 'none' | '1d' | '2d' | 'wronglen' | 'col' (n,1) | 'row' (1,n)
@@ -449,10 +450,13 @@ def make_dataset(d, spec=None):
             raw[3, 1 % n_dat] = np.inf
             raw[n_raw // 2, 0] = np.nan
             raw[n_raw - 2, n_dat - 1] = -np.inf
-        truth['raw'] = raw
+        truth['raw'] = raw if s['raw'] != 'missing' else None
         k = int(s['raw_files'])
         cuts = [0] + [n_raw * (i + 1) // k for i in range(k)]
-        if s['raw_format'] == 'npy':
+        if s['raw'] == 'missing' and s['raw_format'] in ('npy', 'cbin'):
+            dat_paths.append('sim.' + s['raw_format'])      # named in params.py, not on disk
+            k = 0
+        elif s['raw_format'] == 'npy':
             np.save(os.path.join(d, 'sim.npy'), raw)
             dat_paths.append('sim.npy')
             k = 0
@@ -469,6 +473,13 @@ def make_dataset(d, spec=None):
             k = 0
         for i in range(k):
             name = 'sim%d.dat' % i if k > 1 else 'sim.dat'
+            if s['raw_dir']:
+                # the raw files live in a sub-directory named by a relative path in params.py
+                os.makedirs(os.path.join(d, s['raw_dir']), exist_ok=True)
+                name = s['raw_dir'] + '/' + name
+            if s['raw'] == 'missing':
+                dat_paths.append(name)      # named in params.py, not on disk
+                continue
             with open(os.path.join(d, name), 'wb') as f:
                 f.write(b'\x07' * int(s['raw_offset']))
                 f.write(np.ascontiguousarray(raw[cuts[i]:cuts[i + 1]]).tobytes())
